@@ -2,6 +2,9 @@
 C03 — variable scoping follows the configured context behaviour.
 
 Streams:
+  bindings   small directed programs: fills under two to four {% with %} / {% for %} layers written between the
+             component tag and the fill, several binding the same name, every fill / slot default / template
+             printing every name.  real vs Djc.Render vs Djc.SpecRender (which binding is seen).
   programs        generated programs with colliding names (page context, component data, with / for
                   bindings, slot-data aliases drawn from one small pool), `only` on/off, both modes:
                   real vs Djc.Render (model of the code) and vs Djc.SpecRender (scoping rules of the
@@ -19,11 +22,11 @@ from .. import render_common as rc
 
 PROP = "C03"
 THEOREMS = ["insert_pop_restores", "insert_minus_one_restores", "isolated_copy_hides", "not_isolated_hides_everything",
-            "captured_between_outer_and_inner", "captured_above_inner_data_when_nested"]
+            "captured_between_outer_and_inner", "captured_above_inner_data_when_nested", "plain_output_independent_of_world"]
 
 PROFILE = dict(parentloop_in_fill=True, collide=0.8, p_only=0.25, w_with=3, w_for=2, w_slot=4, w_comp=5, p_data_alias=0.5, p_default_alias=0.2,
                p_fill_in_ctl=0.5, p_forloop_print=0.35)
-REGIONS = ["default-alias-render-sees-fill-aliases", "captured-parentloop-aliased", "forloop-layer-leaks-into-isolated", "django-only-fill-loses-outer", "django-slot-owner-override",
+REGIONS = ["isolated-captured-under-enclosing-data", "default-alias-render-sees-fill-aliases", "captured-parentloop-aliased", "forloop-layer-leaks-into-isolated", "django-only-fill-loses-outer", "django-slot-owner-override",
            "django-captured-over-data"]
 
 
@@ -53,6 +56,61 @@ def run_programs(chk, n):
                 chk.violation("impl-violates-spec", "restore", pl["program"], impl={"before": str(real["ctx_before"])[:500],
                               "after": str(real["ctx_after"])[:500], "rc": [real["rc_before"], real["rc_after"]]},
                               note=" || ".join(pl["source"]))
+
+
+def gen_bindings(r):
+    """a small directed program: fills under two to four binding layers ({% with %} / {% for %}) written between the
+    component tag and the fill, several of them binding the *same* name, every fill printing every name"""
+    T, V, L = tplgen.lit, tplgen.var, (lambda s: {"t": "text", "s": s})
+    names = ["a", "b", "c"]
+    show = lambda tag: [L(tag)] + [nd for n in names for nd in ({"t": "out", "e": V(n)}, L(","))]
+    slots = ["s1", "s2"]
+    inner_data = [[n, {"const": tplgen.sval("I" + n)}] for n in r.sample(names, r.randint(0, 2))]
+    c0 = {"name": "c0", "data": inner_data,
+          "template": [{"t": "slot", "name": T(sl), "default": False, "required": False,
+                        "data": [["k1", V("a")]] if r.random() < 0.3 else [], "body": show("D")} for sl in slots] + show("T")}
+
+    def layers(k, body):
+        for j in range(k):
+            x = r.choice(names[:2]) if r.random() < 0.75 else r.choice(names)
+            if r.random() < 0.75:
+                body = [{"t": "with", "x": x, "e": T("W%d%s" % (j, x)) if r.random() < 0.7 else V(r.choice(names)), "body": body}]
+            else:
+                body = [{"t": "for", "x": x, "e": V("one"), "body": body}]
+        return body
+    fills = []
+    for sl in r.sample(slots, r.randint(1, 2)):
+        f = {"t": "fill", "name": T(sl), "data": "sd" if r.random() < 0.3 else None, "dflt": None, "body": show("F")}
+        fills += layers(r.randint(1, 3), [f])
+    if r.random() < 0.5:
+        fills = layers(1, fills)              # a layer shared by all fills
+    tag = {"t": "comp", "name": "c0", "kwargs": [["a", T("Ka")]] if r.random() < 0.3 else [], "only": r.random() < 0.2, "dyn": False,
+           "body": fills}
+    outer = r.random()
+    lib = [c0]
+    if outer < 0.4:
+        page = [tag]
+    elif outer < 0.7:
+        page = [{"t": "with", "x": r.choice(names), "e": T("P"), "body": [tag]}]
+    else:
+        lib = [{"name": "c1", "data": [[n, {"const": tplgen.sval("O" + n)}] for n in r.sample(names, r.randint(0, 2))],
+                "template": [tag] + show("U")}, c0]
+        page = [{"t": "comp", "name": "c1", "kwargs": [], "only": False, "dyn": False, "body": []}]
+    ctx = [[n, tplgen.sval("X" + n)] for n in names if r.random() < 0.7] + [["one", {"l": [tplgen.sval("o")]}]]
+    return {"isolated": r.random() < 0.5, "lib": lib, "entry": {"page": page}, "ctx": ctx, "raise": None}
+
+
+def run_bindings(chk, n):
+    """which binding does a fill see when several layers between the component tag and the fill bind one name"""
+    progs = [gen_bindings(core.rng(PROP, "bindings", i)) for i in range(n)]
+    reps = rc.batch(progs)
+    for p, (rep, sp) in zip(progs, reps):
+        real = tplgen.run_real(p, limit=20.0)
+        chk.count("bindings", 1, validated=1)
+        chk.errkind(real["err"] or "ok")
+        chk.nontrivial(real["out"] or real["err"])
+        chk.branch(["bindings:mode:" + ("isolated" if p["isolated"] else "django")])
+        rc.classify(chk, "bindings", p, real, rep, sp, REGIONS)
 
 
 def run_noninterference(chk, n):
@@ -100,6 +158,7 @@ def run(tier: str) -> int:
     core.django_setup()
     n = 600 if tier == "quick" else 12000
     run_programs(chk, n)
+    run_bindings(chk, n // 2)
     run_noninterference(chk, n // 3)
     chk.assumptions += [
         "names from a pool of eight so that collisions are common; values str / list[str] / dict",
